@@ -16,7 +16,7 @@ RULE = ('valence-valid molecules: corpus sample, curated feature molecules and m
         'standardize_charges, explicify/implicify_hydrogens, enumerate_tautomers}; relations checked per execution: heavy-atom '
         'multiset, net charge and total H conserved (neutralize: delta charge = delta H), no valence error, no exception, '
         'idempotence (also with every cached derived view read before / between the calls), explicify/implicify inverse, equivariance '
-        'under renumbering, documented pair reached (also with the group two and three times on one carbon); rule-fired '
+        'under renumbering, documented pair reached (also with the group two and three times on one carbon); every tautomer has a Kekule form whose text, read again, has the same hydrogens and no atom without valence state; rule-fired '
         'recorder from standardize(logging=True); non-trivial = molecule on which the operation changed something, distinct '
         'by (operation, canonical input)')
 ASSUMPTIONS = ['CachedMethods compatibility shim', 'numbering independence is judged with fix_tautomers=False except on the '
@@ -32,7 +32,8 @@ CONFIG = {
                             'pairs.documented': 110, 'rules.distinct-fired': 70, 'renumbered.compared': 40000, 'tautomers.generated': 1500,
                             'pairs.geminal': 100, 'warm-cache.compared': 30000, 'inputs.quaternized': 600}},
 }
-EXTRA = ['CN(=O)=O', 'C[N+](=O)[O-]', 'CN=[N+]=[N-]', 'CN=N#N', 'C[S+](C)[O-]', 'CS(C)=O', 'O=[N+]([O-])c1ccccc1', 'C[N+](C)(C)[O-]',
+EXTRA = ['N#Cc1ccc2[nH]ccc2c1', 'N#CC=CO', 'C#CC=CNC', 'N#Cc1ccc(O)cc1', 'OC=CC=C=C', 'N#CC(C)=C(C)O', 'C#Cc1ccc2[nH]c(C)cc2c1', 'N#CC=CC=CN', 'OC(C)=CC=C=CC',
+         'CN(=O)=O', 'C[N+](=O)[O-]', 'CN=[N+]=[N-]', 'CN=N#N', 'C[S+](C)[O-]', 'CS(C)=O', 'O=[N+]([O-])c1ccccc1', 'C[N+](C)(C)[O-]',
          'CC(=O)[O-].[Na+]', 'C[NH3+].[Cl-]', 'CC(O)=CC', 'CC(=O)CC(C)=O', 'Oc1ccccn1', 'O=c1cccc[nH]1', 'Oc1ncnc2[nH]cnc12', 'NC(=N)N',
          'NC(=[NH2+])N', 'OP(O)(O)=O', '[O-]P([O-])([O-])=O.[Na+].[Na+].[Na+]', 'CC(=O)O[Na]', 'C[Mg]Br', 'CC(=O)O[Cu]OC(C)=O', 'c1ccccc1[Hg]Cl',
          'C1=CC=C[CH-]1.[Fe+2].C1=CC=C[CH-]1', '[Cu+2].[O-]S(=O)(=O)[O-]', 'C[N+]#[C-]', 'CN#C', '[O-][n+]1ccccc1', 'On1ccccc1=O', 'C=CO', 'CC=C(O)C',
@@ -333,6 +334,9 @@ def check_ops(ctx, m, src, cfg, rng, tautomer_fix_ok):
 def check_tautomers(ctx, m, src, cfg, rng, numbering):
     if m.check_valence() or len(m) > 35:
         return
+    if not kekulizable(m):
+        ctx.count('inputs.valence-invalid-skipped')      # aromatic text without a Kekule form (c1cc[bH]cc1) is not a valence-valid input
+        return
     base = totals(m)
     seen = {}
     try:
@@ -356,6 +360,20 @@ def check_tautomers(ctx, m, src, cfg, rng, numbering):
                               '%s -> %s' % (src, t), {'smiles': src, 'op': 'enumerate_tautomers'})
                 return
             s = str(t)
+            # a hydrogen count that the valence rules do not give (check_valence() only sees missing counts) shows when the text is read again
+            try:
+                kf = fresh(t)
+                kf.kekule()          # the Kekule text: aromatic text leaves hydrogens of charged hetero rings to the reader's own search
+                again = smiles(str(kf))
+                ta = totals(again)
+                ctx.count('tautomers.text-reread')
+                if again.check_valence() or ta[2] != tot[2] or ta[1] != tot[1]:
+                    ctx.violation('tautomer-hydrogens-not-those-of-its-bonds', '%s -> %s: H %r as generated, %r when its text is read (atoms without valence state %s)'
+                                  % (src, s, tot[2], ta[2], again.check_valence()), {'smiles': src, 'op': 'enumerate_tautomers'})
+                    return
+            except Exception as e:
+                ctx.violation('tautomer-text-not-readable/%s' % type(e).__name__, '%s -> %s: %r' % (src, s, e), {'smiles': src, 'op': 'enumerate_tautomers'})
+                return
             if s in seen:
                 ctx.violation('tautomer-enumerated-twice', '%s: %s' % (src, s), {'smiles': src, 'op': 'enumerate_tautomers'})
                 return
@@ -452,8 +470,10 @@ def worker(ctx):
     corpus_set = set(c)
     ids = list(range(len(c)))
     _random.Random(ctx.seed).shuffle(ids)
-    src = [c[i] for k, i in enumerate(ids[:cfg['n_corpus']]) if ctx.mine(k)]
-    src += [s for k, s in enumerate(EXTRA) if ctx.mine(k)] + [s for k, (s, _) in enumerate(G.special()) if ctx.mine(k)]
+    # hand-made inputs first: a time cap reached on a loaded machine then costs corpus molecules, not input classes
+    src = [s for k, s in enumerate(EXTRA) if ctx.mine(k)] + [s for k, (s, _) in enumerate(G.special()) if ctx.mine(k)]
+    src += [c[i] for k, i in enumerate(ids[:cfg['n_corpus']]) if ctx.mine(k)]
+    hand_made = set(EXTRA)
     ntaut = 0
     EXTRA_SET = _extra_set()
     for s in src:
@@ -502,8 +522,8 @@ def worker(ctx):
             except Exception:
                 pass
             check_ops(ctx, v, name, cfg, rng, tautomer_fix_ok=is_corpus)
-        if ntaut < cfg['n_taut'] // ctx.nshards + 1:
-            ntaut += 1
+        if s in hand_made or ntaut < cfg['n_taut'] // ctx.nshards + 1:
+            ntaut += s not in hand_made
             check_tautomers(ctx, m, s, cfg, rng, numbering=True)
         if s in EXTRA_SET or rng.random() < .25:
             # ring-protonated form of the same molecule (a cation neutralize() cannot neutralise away when no counter-ion is there)
